@@ -206,9 +206,25 @@ def rule_handles(ctx):
         ctx.check(okh, R, "handle", b.where(0), "handle <- the directory entry's name parsed as a number", "handle <- %s" % show(h)[:120])
         ctx.check(okn, R, "name", b.where(0), "object_name_rva <- string of read_link(entry.path())", "object_name_rva <- %s" % show(n)[:160])
         ctx.check(oka, R, "attributes", b.where(0), "attributes <- st_mode of stat(entry.path())", "attributes <- %s" % show(at)[:120])
+    # which failures make a descriptor disappear: every `?` on an Option in direntry_to_descriptor drops the entry silently,
+    # so the set of drop causes is frozen (one descriptor per fd unless one of exactly these steps fails)
+    bo = Origin(b)
+    causes = []
+    for x, t in b.calls(lambda c: c.short == "std::ops::Try::branch"):
+        e = bo.call_args(x)[0]
+        names = [s[1].split("::")[-1] for s in walk(e) if s[0] == "call"]
+        cause = next((n for n in names if n in ("filename_to_fd", "read_link", "write_string_to_location", "file_stat")), None)
+        causes.append(cause or ("?" + (names[0] if names else "")))
+    allowed = ["file_stat", "filename_to_fd", "read_link", "write_string_to_location"]
+    ctx.check(sorted(causes) == allowed, R, "drop-causes", b.where(0), "a descriptor is dropped only when one of %s fails" % allowed,
+              "descriptors can also be dropped silently by other conditions: %s (reviewed causes: %s)" % (sorted(causes), allowed))
     wb = ctx.body(R, "linux::sections::handle_data_stream::write")
     if wb is not None:
         wo = Origin(wb)
+        # every entry of the fd directory is offered to direntry_to_descriptor: the only filters are entry.ok() and that function
+        fm = [wo.call_args(x) for x, t in wb.calls(lambda c: (c.short or "").split("::")[-1] in ("filter_map", "filter", "take", "skip", "take_while", "skip_while", "step_by"))]
+        kinds = sorted((CalleeView(t["callee"]).short or "").split("::")[-1] for x, t in wb.calls(lambda c: (c.short or "").split("::")[-1] in ("filter_map", "filter", "take", "skip", "take_while", "skip_while", "step_by")))
+        ctx.check(kinds == ["filter_map", "filter_map"], R, "no-extra-filter", wb.where(0), "the fd listing is filtered only by entry.ok() and direntry_to_descriptor", "the fd listing goes through %s" % kinds)
         for x, t in wb.calls(lambda c: c.short == "std::fs::read_dir"):
             a = wo.call_args(x)
             ctx.check(sorted(literal_pieces(a[0])) == ["/fd", "/proc/"] and any(s[0] == "field" and s[2] == "process_id" for s in walk(a[0])), R, "source", wb.where(x), "descriptors are listed from /proc/<process_id>/fd", "descriptors listed from %s" % literal_pieces(a[0]))
